@@ -10,6 +10,7 @@ import (
 	"os"
 	"runtime"
 	"runtime/pprof"
+	"strings"
 	"sync"
 	"sync/atomic"
 	"time"
@@ -166,10 +167,10 @@ func cmdConc(args []string) int {
 					id := own(n)
 					call("VAdd", func() (bool, map[string]any) {
 						return e.VAdd(ix, id, []float32{float32(c), float32(n), 1, 0}, map[string]any{"content": "own text", "n": float64(n)}) == nil, nil
-					}, nil)
+					}, map[string]any{"vids": []string{id}})
 				case 8:
 					id := own(rng.Intn(5))
-					call("VDelete", func() (bool, map[string]any) { return e.VDelete(ix, id) == nil, nil }, nil)
+					call("VDelete", func() (bool, map[string]any) { return e.VDelete(ix, id) == nil, nil }, map[string]any{"vids": []string{id}})
 				case 9:
 					a, b := own(rng.Intn(5)), it
 					call("VLink", func() (bool, map[string]any) { return e.VLink(ix, a, b, "rel", "inv", 1, nil) == nil, nil }, nil)
@@ -178,8 +179,15 @@ func cmdConc(args []string) int {
 					call("VUnlink", func() (bool, map[string]any) { return e.VUnlink(ix, a, b, "rel", "inv", rng.Intn(2) == 0) == nil, nil }, nil)
 				case 11:
 					call("VSearch", func() (bool, map[string]any) {
-						_, err := e.VSearch(ix, []float32{1, 1, 0, 0}, 3, "", "", 0, 1, nil)
-						return err == nil, nil
+						ids, err := e.VSearch(ix, []float32{float32(c), float32(n % 7), 1, 0}, 3, "", "", 0, 1, nil)
+						out := []string{}
+						for _, id := range ids {
+							if strings.HasPrefix(id, "evolved_") {
+								id = "EVOLVED" // ids minted by VEvolve are never deleted in this driver
+							}
+							out = append(out, id)
+						}
+						return err == nil, map[string]any{"ids": out}
 					}, nil)
 				case 12:
 					call("VGetMany", func() (bool, map[string]any) {
@@ -188,7 +196,7 @@ func cmdConc(args []string) int {
 					}, nil)
 				case 13:
 					items2 := []types.BatchObject{{Id: fmt.Sprintf("b%d-%d", c, n), Vector: []float32{1, 2, 3, float32(n)}}}
-					call("VAddBatch", func() (bool, map[string]any) { return e.VAddBatch(ix, items2) == nil, nil }, nil)
+					call("VAddBatch", func() (bool, map[string]any) { return e.VAddBatch(ix, items2) == nil, nil }, map[string]any{"vids": []string{items2[0].Id}})
 				}
 				select {
 				case <-stop:
@@ -209,13 +217,13 @@ func cmdConc(args []string) int {
 				// bulk import + commit: the commit snapshots and starts the background turbo refine
 				items2 := []types.BatchObject{{Id: fmt.Sprintf("imp%d-a", i), Vector: []float32{2, 2, float32(i), 1}},
 					{Id: fmt.Sprintf("imp%d-b", i), Vector: []float32{3, 2, float32(i), 1}, Metadata: map[string]any{"content": "imported"}}}
-				call("VImport", func() (bool, map[string]any) { return e.VImport(ix, items2) == nil, nil }, nil)
+				call("VImport", func() (bool, map[string]any) { return e.VImport(ix, items2) == nil, nil }, map[string]any{"vids": []string{items2[0].Id, items2[1].Id}})
 				call("VImportCommit", func() (bool, map[string]any) { return e.VImportCommit(ix) == nil, nil }, nil)
 			case 8:
 				src := fmt.Sprintf("ev-src%d", i)
 				call("VAdd", func() (bool, map[string]any) {
 					return e.VAdd(ix, src, []float32{4, 4, float32(i), 1}, map[string]any{"content": "to evolve"}) == nil, nil
-				}, nil)
+				}, map[string]any{"vids": []string{src}})
 				call("VEvolve", func() (bool, map[string]any) {
 					_, err := e.VEvolve(ix, src, []float32{4, 5, float32(i), 1}, map[string]any{"content": "evolved"}, "conc")
 					return err == nil, nil
@@ -233,7 +241,7 @@ func cmdConc(args []string) int {
 				call("VCreate", func() (bool, map[string]any) {
 					return e.VCreate(name, distance.Cosine, 0, 0, distance.Float32, "", nil, nil, nil) == nil, nil
 				}, nil)
-				call("VAdd", func() (bool, map[string]any) { return e.VAdd(name, "x", []float32{1, 2, 3}, nil) == nil, nil }, nil)
+				call("VAdd", func() (bool, map[string]any) { return e.VAdd(name, "x", []float32{1, 2, 3}, nil) == nil, nil }, map[string]any{"vids": []string{}})
 				call("VDeleteIndex", func() (bool, map[string]any) { return e.VDeleteIndex(name) == nil, nil }, nil)
 			case 5:
 				call("GraphVacuum", func() (bool, map[string]any) { e.RunGraphVacuum(); return true, nil }, nil)
@@ -292,7 +300,7 @@ func cmdConc(args []string) int {
 	}
 	// calls made after Close returned must fail cleanly
 	call("KVSet", func() (bool, map[string]any) { return e.KVSet("late", []byte("x")) == nil, nil }, map[string]any{"k": "late", "v": "x"})
-	call("VAdd", func() (bool, map[string]any) { return e.VAdd(ix, "late", []float32{1, 1, 1, 1}, nil) == nil, nil }, nil)
+	call("VAdd", func() (bool, map[string]any) { return e.VAdd(ix, "late", []float32{1, 1, 1, 1}, nil) == nil, nil }, map[string]any{"vids": []string{"late"}})
 	call("VLink", func() (bool, map[string]any) { return e.VLink(ix, "r1", "r2", "rel", "", 1, nil) == nil, nil }, nil)
 	call("VSetMetadata", func() (bool, map[string]any) {
 		return e.VSetMetadata(ix, "r1", map[string]any{"late": true}) == nil, nil
